@@ -66,6 +66,10 @@ func rtCase(sp *VSpec, src string) {
 		}
 	})
 	key := v.K + "\x00" + ev.Printed
+	if litBound > 0 {
+		key = "bounded" + itoa(litBound) + "\x00" + key
+		ev.Src = src + "-bounded"
+	}
 	if seen[key] {
 		stat("dup")
 		return
@@ -235,6 +239,22 @@ func runRT(candFile string) {
 	if onlyCands {
 		return
 	}
+	// 1b. the bounded literal builder: what it BUILDS it must read back (texts of ASCII and multi-byte characters and
+	// blobs around the bound; built, printed and parsed with the same builder, alone, as object and inside a triple)
+	for _, bound := range []int{3, 8} {
+		litBound = bound
+		for n := 0; n <= bound+1; n++ {
+			for _, unit := range []string{"a", "é", "日", "\"", "a é"} {
+				inContexts(textSpec(strings.Repeat(unit, n)), "bounded", true)
+			}
+			bs := make([]byte, n)
+			for i := range bs {
+				bs[i] = byte(200 + i)
+			}
+			inContexts(blobSpec(bs), "bounded", true)
+		}
+	}
+	litBound = 0
 	// 2. the near-miss universe, each value in every context
 	for _, sp := range univ.Values {
 		if sp.K == "triple" || sp.K == "obj" {
